@@ -117,11 +117,19 @@ type c12Layout struct {
 	maxWs  int
 	inner  int
 	kwCase bool
+	// fixed styles (long filters, c12w3.go): every WS+ place / every WS* place inside parentheses and around the
+	// filter is spelled exactly so; keywords in upper case
+	wsFix    string
+	innerFix string
+	kwUpper  bool
 }
 
 var c12WsChars = []string{" ", " ", " ", "\t", "\n", "\r"}
 
 func (l *c12Layout) ws(min int) string {
+	if l.wsFix != "" {
+		return l.wsFix
+	}
 	if l.r == nil {
 		return strings.Repeat(" ", min)
 	}
@@ -137,6 +145,9 @@ func (l *c12Layout) ws(min int) string {
 }
 
 func (l *c12Layout) innerWs() string {
+	if l.innerFix != "" {
+		return l.innerFix
+	}
 	if l.r == nil || l.inner == 0 {
 		return ""
 	}
@@ -149,6 +160,9 @@ func (l *c12Layout) innerWs() string {
 }
 
 func (l *c12Layout) kw(w string) string {
+	if l.kwUpper {
+		return strings.ToUpper(w)
+	}
 	if l.r == nil || !l.kwCase {
 		return w
 	}
@@ -212,11 +226,11 @@ func (l *c12Layout) expr(e *c12Expr, text, pre *strings.Builder) {
 func (l *c12Layout) spell(e *c12Expr) (string, string) {
 	var text, pre strings.Builder
 	l.next = 0
-	if l.r != nil {
+	if l.r != nil || l.innerFix != "" {
 		text.WriteString(l.innerWs())
 	}
 	l.expr(e, &text, &pre)
-	if l.r != nil {
+	if l.r != nil || l.innerFix != "" {
 		text.WriteString(l.innerWs())
 	}
 	return text.String(), pre.String()
@@ -451,7 +465,10 @@ func runC12(o *opts) error {
 						kinds, nerr = c12Lex(j.filter)
 					}
 					tt := c12TruthTable(j.mode, j.filter, j.atoms)
-					if j.kind == "S" {
+					if j.kind == "S" && strings.HasPrefix(j.caseLine, "S d") {
+						// streams d1/d2 (repeating atoms): also the same skeleton over DISTINCT atoms, under the same values
+						j.implLine = fmt.Sprintf("S %s %d %s %s", kinds, nerr, tt, c12dProjected(j.mode, j.filter, j.atoms))
+					} else if j.kind == "S" {
 						j.implLine = fmt.Sprintf("S %s %d %s", kinds, nerr, tt)
 					} else {
 						j.implLine = fmt.Sprintf("W %s %d %s %s", kinds, nerr, tt, c12TruthTable(j.mode, j.base, j.atoms))
@@ -476,6 +493,7 @@ func runC12(o *opts) error {
 			return err
 		}
 		var kjobs []*c12kJob
+		var njobs []*c12nJob
 		for _, line := range strings.Split(strings.TrimSpace(string(data)), "\n") {
 			f := strings.Fields(line)
 			if len(f) < 6 {
@@ -484,6 +502,12 @@ func runC12(o *opts) error {
 			if f[0] == "K" {
 				if j := c12kFromLine(f); j != nil {
 					kjobs = append(kjobs, j)
+				}
+				continue
+			}
+			if f[0] == "N" {
+				if j := c12nFromLine(f); j != nil {
+					njobs = append(njobs, j)
 				}
 				continue
 			}
@@ -498,6 +522,13 @@ func runC12(o *opts) error {
 			return err
 		}
 		for _, j := range kjobs {
+			cases.line("%s", j.caseLine)
+			impl.line("%s", j.implLine)
+		}
+		if err := c12nRun(o, njobs, stats); err != nil {
+			return err
+		}
+		for _, j := range njobs {
 			cases.line("%s", j.caseLine)
 			impl.line("%s", j.implLine)
 		}
@@ -639,6 +670,14 @@ func runC12(o *opts) error {
 		text, pre := lay.spell(e)
 		emit("g", "sym", text, pre, c12PlainAtoms[:k], "")
 	}
+	// streams d (repeating atoms, operands that are groupings of one clause sequence) and l (long filters and
+	// their white-space / parenthesis re-spellings): c12w3.go
+	if o.get("nod", "") == "" {
+		c12dStream(o, r, all, emit, stats)
+	}
+	if o.get("nol", "") == "" {
+		c12lStream(o, r, emit, stats)
+	}
 	flush()
 
 	// stream k: keywords / word operators / white space inside atoms and clauses (c12kw.go), on a real store
@@ -653,6 +692,17 @@ func runC12(o *opts) error {
 			return err
 		}
 		for _, j := range kjobs {
+			cases.line("%s", j.caseLine)
+			impl.line("%s", j.implLine)
+		}
+	}
+	// stream n: real comparisons on fields that are nil / unset on some rows; row-wise oracle (c12w3.go)
+	if o.get("non", "") == "" {
+		njobs := c12nGenerate(o, newRng(o.seed^0x6e31), stats)
+		if err := c12nRun(o, njobs, stats); err != nil {
+			return err
+		}
+		for _, j := range njobs {
 			cases.line("%s", j.caseLine)
 			impl.line("%s", j.implLine)
 		}
